@@ -292,6 +292,10 @@ impl Family for XIni {
     }
     fn gen(&self, r: &mut Rng, _idx: u64) -> String {
         let auth = r.pick(&[0u8, 0, 0, 0, 0, 0, 0, 1, 2]);
+        if r.chance(1, 40) {
+            // (pre 0 = already migrated: the handler panics, which aborts a host process - on chain the instruction fails; not executed)
+            return format!("xini migr {} {}", r.pick(&[1u8, 1, 2]), b(r.chance(1, 2)));
+        }
         match r.below(14) {
             10 => return format!("xini cext {} {}", auth, r.pick(&[0u8, 0, 0, 0, 0, 1, 2])),
             11 => return format!("xini badge {} {} {} {}", auth, b(r.chance(4, 5)), b(r.chance(1, 10)), b(r.chance(1, 8))),
@@ -618,6 +622,59 @@ impl XIni {
                 let e = WhirlpoolsConfigExtension::try_deserialize(&mut &w.bank.data(&pda)[..]).unwrap();
                 if e.whirlpools_config != w.cfg || e.config_extension_authority != w.fee_auth || e.token_badge_authority != w.fee_auth {
                     ctx.viol("the created config extension does not name its config and the fee authority as both authorities".to_string());
+                }
+                "ok".to_string()
+            }
+            "migr" => {
+                // migrate_repurpose_reward_authority_space: permissionless, once per pool; clears the former authority
+                // slots of rewards 1 and 2 and must leave reward_infos[0].extension (THE reward authority) and all else alone
+                let pre: u8 = t[2].parse().unwrap();
+                let signed = pb(t[3]);
+                if pre == 0 {
+                    return "err Panic".to_string();
+                }
+                let mut w = world(64, 3);
+                let mut wp = Whirlpool::try_deserialize(&mut &w.bank.data(&w.pool)[..]).unwrap();
+                if pre >= 1 {
+                    wp.reward_infos[2].extension = k(0xF7, 2).to_bytes();
+                }
+                if pre == 1 {
+                    wp.reward_infos[1].extension = k(0xF7, 1).to_bytes();
+                }
+                let mut d = vec![];
+                wp.try_serialize(&mut d).unwrap();
+                d.resize(Whirlpool::LEN, 0);
+                w.bank.set(w.pool, pid, 10_000_000, d.clone());
+                let acc = ::whirlpool::accounts::MigrateRepurposeRewardAuthoritySpace { whirlpool: w.pool };
+                let mut metas: Vec<Meta> = acc.to_account_metas(None).iter().map(Meta::from).collect();
+                if signed {
+                    metas.push(Meta { key: w.stranger, signer: true, writable: false });
+                }
+                let data = ::whirlpool::instruction::MigrateRepurposeRewardAuthoritySpace {}.data();
+                let before = w.bank.clone();
+                let (res, out) = w.bank.execute(&metas, &data);
+                if let Some(s) = finish(&w, &before, &res, &out, ctx, "migr") {
+                    if pre != 0 {
+                        ctx.viol(format!("migrate_repurpose_reward_authority_space fails on a pool that was not migrated yet: {}", s));
+                    }
+                    return s;
+                }
+                ctx.nontrivial(line);
+                if pre == 0 {
+                    ctx.viol("migrate_repurpose_reward_authority_space ran a second time on a migrated pool".to_string());
+                }
+                let after = Whirlpool::try_deserialize(&mut &w.bank.data(&w.pool)[..]).unwrap();
+                let mut want = wp.clone();
+                want.reward_infos[1].extension = [0u8; 32];
+                want.reward_infos[2].extension = [0u8; 32];
+                let mut wd = vec![];
+                want.try_serialize(&mut wd).unwrap();
+                wd.resize(Whirlpool::LEN, 0);
+                if w.bank.data(&w.pool) != wd {
+                    ctx.viol("C04/C19 migrate_repurpose_reward_authority_space changed something else than the former authority slots of rewards 1 and 2".to_string());
+                }
+                if after.reward_infos[0].extension != wp.reward_infos[0].extension {
+                    ctx.viol("C04 migrate_repurpose_reward_authority_space changed the reward authority".to_string());
                 }
                 "ok".to_string()
             }
